@@ -172,7 +172,7 @@ def curM (tb : Tables) : M :=
     cfg := { locate := lookupLoc tb.locateTable, bareReason := "\"No longer supported\"" },   -- D56 (hand-set)
     emptyNull := false,
     listSchemaObj := true,
-    literal := some tb.metaLiteral }                                                            -- D36
+    literal := tb.metaLiteral }                                                            -- D36
 
 def devSites : List (String × List (GoT × MF)) :=
   [("D57", [(.iface, .fields)]),
